@@ -582,10 +582,12 @@ def is_in_polygon(polygon, points, ncaps=0):
     usencaps = p['ncaps']
     if ncaps > 0:
         usencaps = min(ncaps, p['ncaps'])
+    xcaps = np.atleast_2d(p['x'])
+    cmcaps = np.atleast_1d(p['cm'])
     in_polygon = np.ones((npoints,), dtype=bool)
     for icap in range(usencaps):
         if is_cap_used(p['use_caps'], icap):
-            in_polygon &= is_in_cap(p['x'][icap, :], p['cm'][icap], points)
+            in_polygon &= is_in_cap(xcaps[icap, :], cmcaps[icap], points)
     return in_polygon
 
 
